@@ -220,4 +220,6 @@ def obligations(repo):
         obs += c20_tmpl.tmpl_obligations("C20")
     except ImportError:
         pass
+    import c20_fmt
+    obs += c20_fmt.fmt_obligations("C20")
     return obs
